@@ -383,3 +383,43 @@ def fault_plans(wd, nlinks, m, k, delays, timeout=300):
     if not mm or int(mm.group(1)) != len(plans):
         raise core.ToolError("fault plan enumeration failed: %s" % out[-1500:])
     return plans
+
+
+def twin_compare(trace_a, trace_b, metadir):
+    """TLC compares the player sessions' calls of two traces (spec/Trace_Twin.tla).
+    Returns dict(diff: {peer: first differing call or 0}, calls: {peer: n})."""
+    import re
+    rc, out = core.tlc(os.path.join(core.SPEC, "Trace_Twin.tla"), os.path.join(core.SPEC, "Trace_Twin.cfg"),
+                       metadir, env={"TRACE": trace_a, "TRACE2": trace_b}, timeout=600)
+    m = re.search(r'<<"TWIN-RESULT", "(.*)">>', out)
+    if not m:
+        raise core.ToolError("Trace_Twin produced no result (rc=%d): %s" % (rc, out[-2000:]))
+    return json.loads(m.group(1).encode().decode("unicode_escape"))
+
+
+def schedule_of_trace(path, drop_peers=(), keep_cfg=None):
+    """The schedule (cfg + steps) of a recorded trace; optionally without the steps of some peers.
+    Deliveries are addressed by queue position (ids shift when peers are removed)."""
+    with open(path) as f:
+        lines = [json.loads(x) for x in f if x.strip()]
+    cfg = keep_cfg or lines[0]["cfg"]
+    steps = []
+    for l in lines[1:]:
+        a = l.get("a")
+        if a in ("end", "cfg", "mark"):
+            continue
+        if a in ("dlv", "drop", "dup"):
+            if l["from"] in drop_peers or l["to"] in drop_peers or not l.get("ok", True):
+                continue
+            steps.append({"a": a, "from": l["from"], "to": l["to"], "k": l["k"]})
+        elif a == "clk":
+            steps.append({"a": "clk", "d": l["d"]})
+        elif "p" in l:
+            if l["p"] in drop_peers or l.get("r") == "skip":
+                continue
+            s = {"a": a, "p": l["p"]}
+            for k in ("in", "h", "d"):
+                if k in l:
+                    s[k] = l[k]
+            steps.append(s)
+    return {"cfg": cfg, "steps": steps}
